@@ -122,11 +122,11 @@ class World:
 
 class Execution:
     __slots__ = ("outcomes", "raw", "alpha", "deadlock", "steps", "waited", "trace", "dir", "store",
-                 "locks", "used_preemptions", "total_steps", "log", "stores", "extra")
+                 "locks", "used_preemptions", "total_steps", "log", "stores", "extra", "saw_timed")
 
 
 def run_program(world, calls, order, preemptions, mp_mode=False, keep_dir=False, on=None, read_boundaries=False,
-                instances=None, extra_on_op=None):
+                instances=None, extra_on_op=None, expire_timed=False):
     """Run the calls (one thread each) on a fresh copy of the start state under the given schedule
     (or, with on=(directory, store), on an existing store instance).  instances=[i, ...]: call n goes through
     store instance i (several FileHashStore objects opened on the same directory in this process)."""
@@ -141,6 +141,7 @@ def run_program(world, calls, order, preemptions, mp_mode=False, keep_dir=False,
         stores += [sched.make_owned_store(d, world.cfg, mp_mode) for _ in range(max(instances))]
     s = sched.Sched(d)
     s.ctx.read_boundaries = read_boundaries
+    s.expire_timed_waits = expire_timed
     if extra_on_op is not None:
         s.extra_on_op = extra_on_op() if isinstance(extra_on_op, type) or getattr(extra_on_op, "is_factory", False) else extra_on_op
     for n, op in enumerate(calls):
@@ -168,6 +169,7 @@ def run_program(world, calls, order, preemptions, mp_mode=False, keep_dir=False,
             ex.locks[f"instance{n}.{k}"] = v
     ex.dir, ex.store, ex.stores = d, store, stores
     ex.extra = getattr(s, "extra_on_op", None)
+    ex.saw_timed = s.saw_timed_wait
     if not keep_dir:
         shutil.rmtree(d, ignore_errors=True)
         ex.dir = None
